@@ -11,6 +11,7 @@ import (
 	"reflect"
 	"strings"
 	"testing"
+	"time"
 
 	"github.com/gdamore/tcell/v2"
 	"github.com/gdamore/tcell/v2/terminfo"
@@ -32,6 +33,8 @@ type iw struct {
 	inited bool
 	err    error
 	stall  bool
+	// burstResize: feedBurst also resizes the window while the burst sits unpolled
+	burstResize bool
 }
 
 func describe(ev tcell.Event) string {
@@ -91,7 +94,16 @@ func newIW(cfg hx.Config, ch *simrt.Chooser) (*iw, error) {
 			w.evs = append(w.evs, describe(ev))
 		}
 	})
-	if st := w.S.Run(); st != simrt.Quiescent || w.err != nil {
+	st := w.S.RunUntil(func() bool { return w.inited }, 0)
+	if st != simrt.Budget && !cfg.Polling {
+		st = w.S.Run()
+		if st != simrt.Quiescent {
+			st = simrt.Budget
+		}
+	} else if st != simrt.Budget {
+		st = w.S.RunUntil(nil, w.S.Now()+time.Millisecond)
+	}
+	if st == simrt.Budget || w.err != nil || !w.inited {
 		w.Close()
 		return nil, fmt.Errorf("init: status %v err %v", st, w.err)
 	}
@@ -102,7 +114,7 @@ func newIW(cfg hx.Config, ch *simrt.Chooser) (*iw, error) {
 // simulated clock moving (no escape timeout can expire).
 func (w *iw) feedHold(b []byte) {
 	w.Tty.Feed(b)
-	if st := w.S.RunUntil(nil, w.S.Now()+1); st == simrt.Budget {
+	if st := w.S.RunUntil(nil, w.S.Now()+w.holdFor()); st == simrt.Budget {
 		w.stall = true
 	}
 }
@@ -117,19 +129,30 @@ func (w *iw) feedBurst(chunks [][]byte, stallMs int) {
 	w.S.Stall(p)
 	w.Tty.FeedChunks(chunks)
 	w.Tty.Faults.Inc("burst_unpolled")
-	if st := w.S.RunUntil(nil, w.S.Now()+1); st == simrt.Budget {
+	if st := w.S.RunUntil(nil, w.S.Now()+w.holdFor()); st == simrt.Budget {
 		w.stall = true
+	}
+	if w.burstResize {
+		// the window changes size while the queues are full: the resize event
+		// may be dropped (it is, by design, when there is no room), the input
+		// may not
+		w.Tty.Resize(w.Tty.W+1, w.Tty.H)
+		w.S.Spawn("winch", func() { w.Tty.FireResize() })
+		w.Tty.Faults.Inc("resize")
+		if st := w.S.RunUntil(nil, w.S.Now()+w.holdFor()); st == simrt.Budget {
+			w.stall = true
+		}
 	}
 	if stallMs > 0 {
 		// the application stays away for stallMs: the clock moves on (and
 		// timers fire) while whatever is blocked stays blocked
 		w.S.Advance(hx.Ms(stallMs))
-		if st := w.S.RunUntil(nil, w.S.Now()+1); st == simrt.Budget {
+		if st := w.S.RunUntil(nil, w.S.Now()+w.holdFor()); st == simrt.Budget {
 			w.stall = true
 		}
 	}
 	w.S.Unstall(p)
-	if st := w.S.RunUntil(nil, w.S.Now()+1); st == simrt.Budget {
+	if st := w.S.RunUntil(nil, w.S.Now()+w.holdFor()); st == simrt.Budget {
 		w.stall = true
 	}
 }
@@ -143,8 +166,26 @@ func (w *iw) runTo(g *simrt.G) {
 	}
 }
 
+// holdFor is how far the clock may move while the pipeline digests what it
+// was given: not at all, except that a polled tty's reader only looks every
+// 10 ms (still far below the escape timeout).
+func (w *iw) holdFor() time.Duration {
+	if w.Cfg.Polling {
+		return 11 * time.Millisecond
+	}
+	return 1
+}
+
 // settle runs to quiescence, letting timers expire.
 func (w *iw) settle() {
+	if w.Cfg.Polling {
+		// a polling tty never goes quiet (its reader wakes up by itself):
+		// half a simulated second is ten escape timeouts
+		if st := w.S.RunUntil(nil, w.S.Now()+500*time.Millisecond); st == simrt.Budget {
+			w.stall = true
+		}
+		return
+	}
 	if st := w.S.Run(); st == simrt.Budget {
 		w.stall = true
 	}
